@@ -165,7 +165,7 @@ impl<'a> AnalyzeIter<'a> {
 
     fn compute_nesting_table(pattern: &'a [char]) -> HashMap<usize, usize> {
         let mut nesting_table = HashMap::new();
-        let mut stack = vec![0; pattern.len()];
+        let mut stack = vec![0; pattern.len() + 1];
         let mut tos = 0;
         let mut capture_stack = vec![false; pattern.len()];
         let mut capture_tos = 0;
@@ -186,7 +186,7 @@ impl<'a> AnalyzeIter<'a> {
                     in_brackets -= 1;
                 }
                 '(' if in_brackets == 0 => {
-                    let capture = pattern[i + 1] != '?';
+                    let capture = pattern.get(i + 1) != Some(&'?');
                     capture_stack[capture_tos] = capture;
                     capture_tos += 1;
                     if capture {
@@ -196,7 +196,7 @@ impl<'a> AnalyzeIter<'a> {
                         group += 1;
                     }
                 }
-                ')' if in_brackets == 0 => {
+                ')' if in_brackets == 0 && capture_tos > 0 => {
                     capture_tos -= 1;
                     let capture = capture_stack[capture_tos];
                     if capture {
